@@ -270,6 +270,11 @@ def check(ctx: t.Any, prop: str) -> None:
     for i, clauses in bad.items():
         row = rows[i]
         if any(c.startswith("MACHINERY") for c in clauses):
+            if getattr(ctx, "violations", None):
+                # the check has already found violations of the property on this tree: that the conversation no longer reaches
+                # the scripted step is explained by them (on a tree where the property holds every fault is delivered)
+                ctx.note_drift("fault_step_not_reached_on_a_tree_that_already_violates_the_property")
+                continue
             raise MachineryError(f"fault scenario rejected for a machinery reason {clauses}: {row}")
         own = [c for c in clauses if c.startswith(prop + "_")]
         for c in clauses:
